@@ -7,14 +7,16 @@ PROP = {
     "rule": "a case is non-trivial when the dimension is >= 2 and the region is anisotropic; for history pairs when the preceding history contains an integration of a different dimension; "
             "front-end and witness cases are all non-trivial; distinct = hash of (method, dimension, budget, seed, region, integrand parameters). Regions: dimensions 1..6, widths 1e-3..1e3, "
             "offset and anisotropic; budgets 1e3..3e5 (thorough: up to 1e6); integrands: constants over 24 decades, products of exponentials, products of off-centre Gaussians "
-            "(width >= 0.15 of the side, also peaked next to a face), sums of quadratics, each with exact mean and variance; histories of 1..6 integrations of differing dimension, region, "
-            "budget, method and seed before the observed call",
-    "floors": {"quick": {"cases": 1300, "distinct_nontrivial": 700,
+            "(width >= 0.15 of the side, also peaked next to a face), sums of quadratics, each with exact mean and variance; the zero function and constants +-1e-250..1e-160; histories of 1..6 "
+            "integrations of differing dimension, region, budget, method and seed before the observed call, whose integrand is in 3 of 10 cases a narrow off-centre peak (sigma 0.3-2 % of the side, "
+            "exactly zero on one side of the midpoint in every dimension: Miser's fallback branch, Vegas iterations without information)",
+    "floors": {"quick": {"cases": 3000, "distinct_nontrivial": 1700,
                          "ticks": {"Vegas.init0": 500, "Vegas.regrid": 500, "Miser.leaf": 50000, "Miser.fallback_dimension": 100, "Vegas.tiny_variance": 1000},
-                         "clauses": {"every-sample-inside-the-region": 1200, "Monte-Carlo-within-six-standard-errors": 150, "Vegas-within-six-standard-errors": 150,
-                                     "Miser-within-six-standard-errors": 150, "result-identical-with-and-without-preceding-integrations": 280,
-                                     "result-identical-in-long-lived-process": 280, "front-end-argument-i-sampled-inside-limit-pair-i": 230,
-                                     "Monte-Carlo-integrates-constants-to-rounding": 100, "Miser-integrates-constants-to-rounding": 100, "Vegas-integrates-constants-to-rounding": 50}},
+                         "clauses": {"every-sample-inside-the-region": 3000, "Monte-Carlo-within-six-standard-errors": 400, "Vegas-within-six-standard-errors": 400,
+                                     "Miser-within-six-standard-errors": 400, "result-identical-with-and-without-preceding-integrations": 700,
+                                     "result-identical-in-long-lived-process": 700, "front-end-argument-i-sampled-inside-limit-pair-i": 550,
+                                     "Monte-Carlo-integrates-constants-to-rounding": 200, "Miser-integrates-constants-to-rounding": 200, "Vegas-integrates-constants-to-rounding": 100,
+                                     "Vegas-integrates-zero-and-tiny-constants": 50, "Miser-integrates-zero-and-tiny-constants": 50, "Monte-Carlo-integrates-zero-and-tiny-constants": 50}},
                "thorough": {"cases": 130000, "distinct_nontrivial": 70000, "ticks": {"Vegas.init0": 50000, "Miser.leaf": 5000000},
                             "clauses": {"every-sample-inside-the-region": 120000, "result-identical-with-and-without-preceding-integrations": 28000}}},
     "technique": "runtime monitoring with the seed hook: integrand wrapper checking every sample location, exact-moment oracle (six plain-MC standard errors), offline comparison of recorded "
